@@ -474,7 +474,9 @@ func ComposeCrud(u *Universe, rng *rand.Rand, firstID int) []*Model {
 		if rng.Intn(3) == 0 {
 			link.Comments = append(link.Comments, "gomacro:SQL ADD UNIQUE(Par)")
 		}
-		m.Tables = append(m.Tables, t0, t1, link)
+		// a table struct whose Go name is not exported is a table like any other
+		t2 := Table{Goname: "entry2", Fields: []Field{plain("Id", basic("int64")), plain("Note", basic("string")), plain("N", basic("int"))}}
+		m.Tables = append(m.Tables, t0, t1, t2, link)
 		models = append(models, m)
 	}
 	return models
